@@ -66,6 +66,7 @@ class Body:
             p = d.get('place')
             if p is not None and not p['proj']:
                 self.local_names.setdefault(p['local'], d['name'])
+        self.ext = False
         self._succ = None
         self._pred = None
 
@@ -329,6 +330,14 @@ class Facts:
             body = Body(b)
             self.bodies[body.name] = body
             self.by_key[body.key].append(body)
+        # monomorphised MIR of the core/alloc functions the crate calls (inlined by the interpreter when no summary exists)
+        self.ext = {}
+        for b in self.j.get('ext_bodies', []):
+            body = Body(b)
+            body.ext = True
+            m = re.search(r'~ (.*?)\)\), args', body.name)
+            body.key = 'ext:' + (re.sub(r'\[[0-9a-f]+\]', '', m.group(1)) if m else body.name)
+            self.ext[body.name] = body
         self.adts = {a['name']: a for a in self.j['adts']}
         self.consts = {c['name']: c for c in self.j['consts']}
         self.items = self.j['items']
